@@ -120,6 +120,18 @@ Theorem C17_regression_pep604 : forall c d df,
   is_optional f = Ok true /\ type_endpoint f = Ok (Cls c) /\ kinds_of f = Ok (spec_kind (Pep604 (Cls c))).
 Proof. exact pep604_regression. Qed.
 
+(* the ancestors query (parent_map / all_ancestors) answers exactly the classes reachable backwards over the diagram's
+   inheritance edges, for every graph - parallel edges included *)
+Theorem C17_ancestors : forall g c, answer g (QAncestors c) = spec_ancestors_sx g c.
+Proof. exact ancestors_correct. Qed.
+
+(* regression (C17-h, repaired by d1fa493): with a parallel association edge Parent -> Child, parent_map / all_ancestors as
+   they were missed the inheritance edge; the ancestors query now answers what the inheritance edges say *)
+Theorem C17_regression_parallel_ancestors :
+  all_ancestors_old parallel_graph 2 = [] /\ true_ancestors parallel_graph 2 = [1]
+  /\ answer parallel_graph (QAncestors 2) = spec_ancestors_sx parallel_graph 2.
+Proof. exact parallel_ancestors_regression. Qed.
+
 Example C17_nonvacuous :
   wf_ty (Optional (Cls 2)) = true /\ wf_ty (OptionalL (Cls 2)) = true /\ wf_ty (Pep604 (Cls 2)) = true /\ wf_ty (Cont KList (Enum 3)) = true /\ wf_ty (TypeOf (Cls 2)) = true /\
   k_one_to_one (spec_kind (Optional (Cls 2))) = true /\ k_endpoint (spec_kind (TypeOf (Cls 2))) = Cls 2 /\
@@ -145,3 +157,5 @@ Print Assumptions C17_regression_two_unresolved.
 Print Assumptions C17_regression_namesake_retry.
 Print Assumptions C17_refuted_missing_namesake.
 Print Assumptions C17_regression_pep604.
+Print Assumptions C17_ancestors.
+Print Assumptions C17_regression_parallel_ancestors.
